@@ -733,6 +733,27 @@ func genC18(c *Ctx) {
 		}
 	}
 
+	// zero written with an exponent - as a numeral string, through a path, as a decimal of that scale: the count 0 whatever its scale
+	for _, s := range []string{"abcDEF", "x", "héllo wörld"} {
+		for _, z := range []string{"0e10", "0E+10", "0e9", "0e-10", "0.0e12", "0e31", "0.000e15"} {
+			c18SliceAll(c, s, 0, c18Lit(z), "named/zero-with-an-exponent/numeric-string")
+			c18SliceAll(c, s, 0, "$.n", "named/zero-with-an-exponent/path-numeric-string", "n", tvStr(z))
+			c18SliceAll(c, s, 0, "$.n", "named/zero-with-an-exponent/path-decimal", "n", tvDec(decimal.RequireFromString(z)))
+		}
+	}
+	// patterns anchored with \A, \z, \b and flags: the whole text (or a word), not a part of it
+	{
+		anch := []string{`\Aabc\z`, `\Aab`, `bc\z`, `(?s)^abc$`, `\bab\b`, `\Aabc$`, `^abc\z`, `(?m)^abc$`, `\A\z`, `\Aa.c\z`, `\Aabc\z|zzz`, `(?i)\AABC\z`}
+		for _, p := range anch {
+			for si, sub := range []string{"abc", "xabcx", "abcx", "xabc", "ab", "a\nc", "abc\n", "x ab y", "xaby", "ABC", "xABCx"} {
+				c18RegexCase(c, sub, p, "<$0>", false, false, "named/anchored-patterns")
+				c18RegexCase(c, sub, p, "-", true, false, "named/anchored-patterns")
+				if c18LitSafe(p) && si%2 == 0 {
+					c18RegexCase(c, sub, p, "-", false, true, "named/anchored-patterns")
+				}
+			}
+		}
+	}
 	// patterns in which a group opener, a class or an escape stands next to `?`, `<`, `P` - where a textual rewrite of the pattern
 	// (instead of handing it to the regexp package as it is) goes wrong - and every new string constant of the source as a pattern
 	// fragment; subjects are the fragments themselves with one character dropped, doubled or preceded by `P`
